@@ -508,4 +508,21 @@ theorem C02_tokenizer_spec (c : Char) (cs : Word) (l : List Word) :
   · intro ⟨h1, h2⟩
     exact C02_tokenizer_unique cc _ l _ h1 h2
 
+/-- what `tokenize` hands to the scanner: each `BasicToken` carries the run as its text, the lowercase copy
+of exactly that text, and no hint (never NaN, no time stamps) — the rewriting of the text-level entry point
+never depends on a hint -/
+theorem C02_basic_tokens (s : Word) : ∀ t ∈ tokenize cc s,
+    t.text ∈ tokenizeWords cc s ∧ t.lower = cc.lowerStr t.text ∧ t.nan = false ∧ t.tstart = 0 ∧ t.tend = 0 := by
+  intro t ht
+  unfold tokenize at ht
+  obtain ⟨w, hw, rfl⟩ := List.mem_map.1 ht
+  exact ⟨hw, rfl, rfl, rfl, rfl⟩
+
+/-- the texts of `tokenize` are exactly the runs, in order -/
+theorem C02_basic_texts (s : Word) : (tokenize cc s).map (·.text) = tokenizeWords cc s := by
+  unfold tokenize
+  rw [List.map_map]
+  have : ((fun t : Tok => t.text) ∘ basicToken cc) = id := by funext w; rfl
+  rw [this, List.map_id]
+
 end T2N.C02.Canon
